@@ -352,11 +352,13 @@ func commandAction(fn func(ctx context.Context, c *cli.Context, proc *query.Proc
 		// Handle signals
 		ch := make(chan os.Signal, 1)
 		signal.Notify(ch, action.Signals...)
-		var signalReceived error
+		// The error is handed over through a channel: it is sent before the cancellation, so it is there
+		// whenever the action has seen the cancellation, and reading it does not race with the goroutine.
+		signalReceived := make(chan error, 1)
 
 		go func() {
 			sig := <-ch
-			signalReceived = query.NewSignalReceived(sig)
+			signalReceived <- query.NewSignalReceived(sig)
 			cancel()
 		}()
 
@@ -371,8 +373,10 @@ func commandAction(fn func(ctx context.Context, c *cli.Context, proc *query.Proc
 		}
 
 		err = fn(ctx, c, proc)
-		if signalReceived != nil {
-			err = signalReceived
+		select {
+		case e := <-signalReceived:
+			err = e
+		default:
 		}
 		return
 	}
